@@ -101,6 +101,8 @@ Persona(H, name) ==
     [] name = "badsig3"   -> Tab(H, <<RName(H)>>, LAMBDA h : IF h = 3 THEN <<"S3">> ELSE <<RName(h)>>)
     \* a target that cannot be trusted directly, and invalid headers at the pivot heights
     [] name = "weak4bad"  -> Tab(H, <<RName(H)>>, LAMBDA h : IF h = 4 THEN <<"W4">> ELSE IF h = 2 THEN <<"N2">> ELSE IF h = 3 THEN <<"N3">> ELSE <<RName(h)>>)
+    \* a target below the trust level, an honest first pivot, nothing at the following pivot
+    [] name = "weak4hole" -> Tab(H, <<RName(H)>>, LAMBDA h : IF h = 4 THEN <<"W4">> ELSE IF h = 3 THEN <<"NotFound">> ELSE <<RName(h)>>)
     [] name = "lunatic3"  -> Tab(H, <<RName(H)>>, LAMBDA h : IF h = 3 THEN <<"L3">> ELSE <<RName(h)>>)
 
 =============================================================================
